@@ -160,7 +160,7 @@ func RunVariantChild(repo, prop, variant string) int {
 		return emit()
 	}
 	r := core.NewReport(prop)
-	props.Registry[prop].Run(p, r)
+	props.RunFull(prop, p, r)
 	out.Obligations = len(r.Obligations)
 	for _, o := range r.Obligations {
 		switch o.Status {
